@@ -9,7 +9,7 @@ import FparserModel.One2
   `ic` = `1`/`0` (`ignore_comments`); `items`: one item per line, fields separated by U+001F:
   `id`, `label|-`, construct name, text (`get_line()`), `1|0` comment, statement classes matching
   (names, `,`-separated), invalid Begin classes, oracle name, entity decls (U+001E-separated),
-  `1|0` typed function header.
+  `1|0` typed function header, classes that cut the header down (`needs`, optional 11th field).
   Printed lines: `id;S;Class` | `id;B;Class;name;cname;basehdr` | `id;E;[label ]END …`
 * `one2.classify text` → Begin classes whose translated regex matches, END classes whose
                          translated regex matches (names, `,`-separated)
@@ -25,6 +25,13 @@ def splitNames (s : String) : List String := (s.splitOn ",").filter (· != "")
 
 def parseItem (row : String) : Option Item :=
   match row.splitOn "\x1f" with
+  | [id, lab, cname, text, com, cands, inv, oname, decls, typed, needs] =>
+    some { id := id.toNat!, label := if lab == "-" then none else lab.toNat?,
+           cname := cname.toList, text := text.toList, isComment := com == "1",
+           cands := (splitNames cands).map (classId T), invalid := (splitNames inv).map (classId T),
+           oname := oname.toList,
+           decls := ((decls.splitOn "\x1e").filter (· != "")).map String.toList,
+           typedHdr := typed == "1", needs := (splitNames needs).map (classId T) }
   | [id, lab, cname, text, com, cands, inv, oname, decls, typed] =>
     some { id := id.toNat!, label := if lab == "-" then none else lab.toNat?,
            cname := cname.toList, text := text.toList, isComment := com == "1",
